@@ -37,7 +37,7 @@ def run(ctx):
         if agg["recoveries"] == 0:
             raise vlib.Undecided("vacuous: no recovery in the random runs")
         if not ctx.quick():
-            storelib.design_only(ctx, "big", dict(CrashAt='{"idle"}', MaxStmts=6, MaxRows=3, MaxFlush=2, MaxCrash=3, Tables='{"t1"}', Vals="{1, 2}"), cov, timeout=600)
+            storelib.design_only(ctx, "big", dict(CrashAt='{"idle"}', MaxStmts=6, MaxRows=3, MaxFlush=2, MaxCrash=3, Tables='{"t1"}', Vals="{1, 2}"), cov, timeout=300)
     finally:
         pool.close()
     drift = sum(c["drift"] for c in cov["configs"])
